@@ -294,6 +294,9 @@ func (sc *SCtx) localVar(name string) (Val, bool) {
 		if fv.Name() == name {
 			cell := g.env[fv]
 			if a := g.addrOf(cell); a != nil {
+				if g.entry != nil && g.immutableCapture(fv) {
+					return g.load(g.entry, a, a.RootT), true
+				}
 				return g.load(sc.state(), a, a.RootT), true
 			}
 		}
